@@ -33,6 +33,7 @@ def _prof(name: str) -> Prof:
         from proof_generation import pattern as P
         from proof_generation.proofs import definedness as D
         from proof_generation.proofs import kore as K
+        from proof_generation.proofs import substitution as S
 
         PROFS.update(
             {
@@ -43,6 +44,9 @@ def _prof(name: str) -> Prof:
                     symbol=0, svar=False, mu=False, app=False, implies=False, exists=False, metavars=1,
                     notations=(K.kore_top, K.kore_not, K.kore_and, K.kore_next, K.kore_implies, K.kore_bottom, K.in_sort, K.kore_dv, K.kore_kseq),
                 ),
+                'binder': Prof(symbol=0, svar=False, mu=False, app=False, implies=False, exists=True, metavars=1, notations=(D.functional, S.forall(0), S.forall(1), K.sorted_exists(0), P.neg)),
+                'rawbody': Prof(symbol=0, svar=False, mu=False, exists=False, app=False, metavars=2),
+                'rawval': Prof(symbol=0, svar=False, mu=False, exists=False, app=False, implies=False, metavars=2),
                 'small': Prof(symbol=0, svar=False, mu=False, app=False, metavars=1, notations=(P.bot, P.neg)),
                 'plug': Prof(symbol=0, mu=False, app=False, implies=False, metavars=1),
             }
@@ -75,6 +79,32 @@ def h_eq(ctx: Any, n1: int, n2: int, prof: str, twin: bool = False) -> None:
     ctx.check(got == want, f'C12.eq[{type(a).__name__},{type(b).__name__}]', lambda: f'{a!r} == {b!r} gives {got}, expansions equal: {want}')
     ctx.check(got_r == got, f'C12.eq-symmetry[{type(a).__name__},{type(b).__name__}]', lambda: f'{a!r} == {b!r}: {got} but reversed {got_r}')
     ctx.check(ne == (not got), f'C12.ne[{type(a).__name__},{type(b).__name__}]', lambda: f'{a!r} != {b!r} gives {ne}')
+
+
+def h_eq_raw(ctx: Any, n: int, m: int, twin: bool = False) -> None:
+    """two partial instantiations of one body (what instantiate_pattern / Instantiate.instantiate produce)"""
+    from frozendict import frozendict
+    from proof_generation import pattern as P
+
+    body = gens.gen(ctx, n, _prof('rawbody'))
+    orders = gens.delta_orders(2)
+    d1 = {k: gens.gen_upto(ctx, m, _prof('rawval')) for k in orders[ctx.choose(len(orders), 'k1')]}
+    d2 = {k: gens.gen_upto(ctx, m, _prof('rawval')) for k in orders[ctx.choose(len(orders), 'k2')]}
+    a = P.Instantiate(body, frozendict(d1))
+    b = P.Instantiate(body, frozendict(d2))
+    if ctx.choose(2, 'wrap'):
+        a, b = P.Implies(a, P.EVar(ctx.int('w'))), P.Implies(b, P.EVar(ctx.int('w')))
+    want = O.eq(O.expand(a), O.expand(b))
+    got = bool(a == b)
+    got_r = bool(b == a)
+    ctx.count('reached')
+    if want:
+        ctx.count('equal_pairs')
+    ctx.sample({'a': repr(a), 'b': repr(b), 'equal': want})
+    if twin:
+        ctx.violation('TWIN')
+    ctx.check(got == want, 'C12.eq[partial-Instantiate]', lambda: f'{a!r} == {b!r} gives {got}, expansions equal: {want}')
+    ctx.check(got_r == want, 'C12.eq[partial-Instantiate,reversed]', lambda: f'{b!r} == {a!r} gives {got_r}, expansions equal: {want}')
 
 
 def h_ops(ctx: Any, n: int, prof: str, twin: bool = False) -> None:
@@ -160,8 +190,17 @@ def levels(tier: str) -> list[dict]:
     for pn in ('defn', 'kore'):
         for n1, n2 in ([(2, 2), (3, 2), (3, 3)] if q else [(2, 2), (3, 2), (3, 3), (4, 3), (4, 4)]):
             L.append(dict(label=f'eq/{pn}/{n1}x{n2}', module=M, fn='h_eq', kwargs=dict(n1=n1, n2=n2, prof=pn), budget_s=bud, required=n1 <= 3))
+    for n1, n2 in ([(2, 2), (3, 2), (3, 3), (4, 3)] if q else [(2, 2), (3, 2), (3, 3), (4, 3), (4, 4), (5, 4)]):
+        L.append(dict(label=f'eq/binder/{n1}x{n2}', module=M, fn='h_eq', kwargs=dict(n1=n1, n2=n2, prof='binder'), budget_s=bud, required=n1 <= 3))
+    for n in ([1, 3] if q else [1, 3, 5]):
+        L.append(dict(label=f'eq/partial-instantiate/body={n},val<=1', module=M, fn='h_eq_raw', kwargs=dict(n=n, m=1), budget_s=bud, required=n <= 3, twin=(n == 3)))
+    for pn in ('binder',):
+        for n in ([2, 3, 4] if q else [2, 3, 4, 5]):
+            L.append(dict(label=f'ops/{pn}/n={n}', module=M, fn='h_ops', kwargs=dict(n=n, prof=pn), budget_s=bud, required=n <= 3, twin=False))
     for pn in ('prop', 'prop2', 'defn', 'kore'):
         for n in ([1, 2, 3] if q else [1, 2, 3, 4]):
+            if n == 1 and pn in ('defn', 'kore'):
+                continue
             L.append(dict(label=f'ops/{pn}/n={n}', module=M, fn='h_ops', kwargs=dict(n=n, prof=pn), budget_s=bud, required=n <= 3, twin=(n >= 2)))
     L.append(dict(label='triples/small/n<=2', module=M, fn='h_trans', kwargs=dict(n=2 if q else 3, prof='small'), budget_s=bud, required=False))
     return L
